@@ -1,6 +1,7 @@
 package td
 
 import (
+	"fmt"
 	"sort"
 	"strings"
 )
@@ -261,4 +262,49 @@ func Weights(ps []Pair) []int {
 		out = append(out, w)
 	}
 	return out
+}
+
+type Conf struct {
+	Maps  *int
+	Other int
+}
+
+func write(v *int) error {
+	if v == nil {
+		return fmt.Errorf("nothing to write")
+	}
+	return nil
+}
+
+// PublishAfterWrite: the result is published only after it was written out.
+func PublishAfterWrite(c *Conf, v *int) error {
+	c.Other = 1
+	if err := write(v); err != nil {
+		return err
+	}
+	c.Maps = v
+	return nil
+}
+
+// PublishBeforeWrite: published first (must be flagged).
+func PublishBeforeWrite(c *Conf, v *int) error {
+	c.Maps = v
+	return write(v)
+}
+
+// UniqueIDs: every element gets an id that was not handed out before.
+func UniqueIDs(xs []*Bind, start int) {
+	used := map[int]struct{}{}
+	for _, x := range xs {
+		id := start
+		for {
+			_, taken := used[id]
+			if id != 0 && !taken {
+				break
+			}
+			id++
+		}
+		used[id] = struct{}{}
+		x.Port = id
+	}
 }
